@@ -25,8 +25,8 @@ int main() {
         else if (hist == "copywarm") { A->RnsToRing(dump, ones); FX B(*A); delete A; B.RnsToRing(V, R); }
         else if (hist == "copy2") { A->RnsToRing(dump, ones); FX* B = new FX(*A); delete A; FX C(*B); delete B; C.RnsToRing(V, R); }
         else if (hist == "copyassign") { FX B(*A); FX C; C = B; delete A; C.RnsToRing(V, R); B.RnsToRing(dump, R); if (dump != V) V = -1; }
-        else { delete A; std::cout << "BAD-HIST\n"; continue; }
-        std::cout << V << "\n";
+        else { delete A; std::cout << "BAD-HIST" << std::endl; continue; }
+        std::cout << V << std::endl;
     }
     return 0;
 }
